@@ -65,9 +65,15 @@ func envaPart(r *ev.Report, dir string) {
 		err  error
 		doc  bool
 	}
-	fetch := func(name, path string) res {
+	fetch := func(name, path string) (out res) {
 		u, _ := url.Parse(fmt.Sprintf("https://f.example:%d%s", env.Port, path))
 		t := time.Now()
+		defer func() {
+			if x := recover(); x != nil {
+				r.Violation("enva:panic:"+name, map[string]any{"case": name, "msg": fmt.Sprint(x)})
+				out = res{name, time.Since(t), fmt.Errorf("panic: %v", x), false}
+			}
+		}()
 		doc, _, err := jtp.Get(u, "application/activity+json", []string{"application/activity+json"}, 0)
 		return res{name, time.Since(t), err, doc != nil}
 	}
